@@ -11,7 +11,7 @@ package prover
 // ---------------------------------------------------------------------------------------
 
 //@ func (ReducedModRCheck) DefineGadget
-//@   property C06 C03
+//@   property C06 C03 C12
 //@   field generic
 //@   returns []Variable
 //@   let n = len(r.Input)
@@ -28,7 +28,7 @@ package prover
 //@     decreases i + 1
 
 //@ func (ToReducedBigEndian) DefineGadget
-//@   property C06 C03
+//@   property C06 C03 C12
 //@   field generic
 //@   returns []Variable
 //@   requires gadget.Size >= 0 && gadget.Size % 8 == 0
@@ -47,7 +47,7 @@ package prover
 //@     decreases i + 8
 
 //@ func (FromBinaryBigEndian) DefineGadget
-//@   property C06 C03
+//@   property C06 C03 C12
 //@   field generic
 //@   returns Variable
 //@   requires len(gadget.Variable) % 8 == 0
@@ -69,14 +69,14 @@ package prover
 // ---------------------------------------------------------------------------------------
 
 //@ func (ProofRound) DefineGadget
-//@   property C01 C02
+//@   property C01 C02 C12
 //@   returns Variable
 //@   ensures api.ok == (ok0 && isbool(gadget.Direction))
 //@   ensures isbool(gadget.Direction) ==> result == merkle.step(gadget.Direction, gadget.Hash, gadget.Sibling)
 //@   ensures inField(result)
 
 //@ func (VerifyProof) DefineGadget
-//@   property C01 C02
+//@   property C01 C02 C12
 //@   returns Variable
 //@   requires len(gadget.Proof) == len(gadget.Path) + 1
 //@   let k = len(gadget.Path)
@@ -92,7 +92,7 @@ package prover
 //@     decreases len(gadget.Proof) - i
 
 //@ func (InsertionRound) DefineGadget
-//@   property C01
+//@   property C01 C12
 //@   returns Variable
 //@   requires 0 <= gadget.Depth && gadget.Depth <= 32 && len(gadget.Proof) == gadget.Depth
 //@   let D = gadget.Depth
@@ -108,7 +108,7 @@ package prover
 //@   assert@return[A] api.ok ==> (forall t :: 0 <= t && t < D ==> currentPath[t] == bits.bit(gadget.Index, t))
 
 //@ func (InsertionProof) DefineGadget
-//@   property C01
+//@   property C01 C12
 //@   returns Variable
 //@   requires 0 <= gadget.BatchSize && len(gadget.IdComms) == gadget.BatchSize && len(gadget.MerkleProofs) == gadget.BatchSize
 //@   requires forall j :: 0 <= j && j < gadget.BatchSize ==> len(gadget.MerkleProofs[j]) == gadget.Depth
@@ -132,7 +132,7 @@ package prover
 //@     decreases gadget.BatchSize - i
 
 //@ func (DeletionRound) DefineGadget
-//@   property C02
+//@   property C02 C12
 //@   returns Variable
 //@   requires 0 <= gadget.Depth && gadget.Depth <= 31 && len(gadget.MerkleProofs) == gadget.Depth
 //@   let D = gadget.Depth
@@ -151,7 +151,7 @@ package prover
 //@   assert@def:currentPath[A] api.ok ==> (forall t :: 0 <= t && t <= D ==> currentPath[t] == bits.bit(gadget.Index, t))
 
 //@ func (DeletionProof) DefineGadget
-//@   property C02
+//@   property C02 C12
 //@   returns Variable
 //@   requires 0 <= gadget.BatchSize && len(gadget.IdComms) == gadget.BatchSize && len(gadget.MerkleProofs) == gadget.BatchSize
 //@   requires len(gadget.DeletionIndices) == gadget.BatchSize
@@ -179,7 +179,7 @@ package prover
 // ---------------------------------------------------------------------------------------
 
 //@ func (*InsertionMbuCircuit) Define
-//@   property C03 C01
+//@   property C03 C01 C12
 //@   requires circuit.BatchSize >= 0 && len(circuit.IdComms) == circuit.BatchSize && len(circuit.MerkleProofs) == circuit.BatchSize
 //@   requires forall j :: 0 <= j && j < circuit.BatchSize ==> len(circuit.MerkleProofs[j]) == circuit.Depth
 //@   requires 0 <= circuit.Depth && circuit.Depth <= 32
@@ -208,7 +208,7 @@ package prover
 //@   assert@loop1[H] keccak.digest(bits, n, 1) == keccak.digest(msg, n, 1)
 
 //@ func (*DeletionMbuCircuit) Define
-//@   property C03 C02
+//@   property C03 C02 C12
 //@   requires circuit.BatchSize >= 0 && len(circuit.IdComms) == circuit.BatchSize && len(circuit.MerkleProofs) == circuit.BatchSize
 //@   requires len(circuit.DeletionIndices) == circuit.BatchSize
 //@   requires forall j :: 0 <= j && j < circuit.BatchSize ==> len(circuit.MerkleProofs[j]) == circuit.Depth
@@ -276,17 +276,17 @@ package prover
 // ---------------------------------------------------------------------------------------
 
 //@ func fromHex
-//@   property C10 C16
+//@   property C10 C16 C13
 //@   modifies i
 //@   ensures (result == nil) == str.isNum(s)
 //@   ensures str.isNum(s) ==> deref(i) == str.num(s)
 
 //@ func toHex
-//@   property C10 C16
+//@   property C10 C16 C13
 //@   ensures deref(i) >= 0 ==> result == str.concat("0x", str.hex16(deref(i)))
 
 //@ func (*Proof) MarshalJSON
-//@   property C10
+//@   property C10 C13
 //@   let raw = p.Proof.raw
 //@   let coord0 = str.concat("0x", str.hex16(bytes.beIntFrom(raw, 0, 32)))
 //@   let coord1 = str.concat("0x", str.hex16(bytes.beIntFrom(raw, 32, 64)))
@@ -353,7 +353,7 @@ package prover
 //@     decreases len(p.MerkleProofs[i]) - j
 
 //@ func (*InsertionParameters) UnmarshalJSON
-//@   property C16
+//@   property C16 C13
 //@   modifies p
 //@   let allNum = str.isNum(json.pStr(data, "inputHash")) &&
 //@       str.isNum(json.pStr(data, "preRoot")) &&
@@ -419,7 +419,7 @@ package prover
 //@     decreases len(p.MerkleProofs[i]) - j
 
 //@ func (*DeletionParameters) UnmarshalJSON
-//@   property C16
+//@   property C16 C13
 //@   modifies p
 //@   let allNum = str.isNum(json.pStr(data, "inputHash")) &&
 //@       str.isNum(json.pStr(data, "preRoot")) &&
@@ -458,7 +458,7 @@ package prover
 // ---------------------------------------------------------------------------------------
 
 //@ func (*InsertionParameters) ValidateShape
-//@   property C07 C09
+//@   property C07 C09 C13
 //@   ensures (result == nil) == (len(p.IdComms) == batchSize && len(p.MerkleProofs) == batchSize &&
 //@              (forall k :: 0 <= k && k < len(p.MerkleProofs) ==> len(p.MerkleProofs[k]) == treeDepth))
 //@   loop 1
@@ -466,7 +466,7 @@ package prover
 //@     invariant forall k :: 0 <= k && k < i ==> len(p.MerkleProofs[k]) == treeDepth
 
 //@ func (*DeletionParameters) ValidateShape
-//@   property C07 C09
+//@   property C07 C09 C13
 //@   ensures (result == nil) == (len(p.IdComms) == batchSize && len(p.MerkleProofs) == batchSize && len(p.DeletionIndices) == batchSize &&
 //@              (forall k :: 0 <= k && k < len(p.MerkleProofs) ==> len(p.MerkleProofs[k]) == treeDepth))
 //@   loop 1
@@ -474,7 +474,7 @@ package prover
 //@     invariant forall k :: 0 <= k && k < i ==> len(p.MerkleProofs[k]) == treeDepth
 
 //@ func (*ProvingSystem) ProveInsertion
-//@   property C07 C09
+//@   property C07 C09 C13
 //@   let shapeOK = len(params.IdComms) == ps.BatchSize && len(params.MerkleProofs) == ps.BatchSize &&
 //@                 (forall k :: 0 <= k && k < len(params.MerkleProofs) ==> len(params.MerkleProofs[k]) == ps.TreeDepth)
 //@   ensures result1 == nil ==> shapeOK
@@ -502,7 +502,7 @@ package prover
 //@   assert@return result1 == nil ==> deref(result0).Proof == proof
 
 //@ func (*ProvingSystem) ProveDeletion
-//@   property C07 C09
+//@   property C07 C09 C13
 //@   let shapeOK = len(params.IdComms) == ps.BatchSize && len(params.MerkleProofs) == ps.BatchSize && len(params.DeletionIndices) == ps.BatchSize &&
 //@                 (forall k :: 0 <= k && k < len(params.MerkleProofs) ==> len(params.MerkleProofs[k]) == ps.TreeDepth)
 //@   ensures result1 == nil ==> shapeOK
@@ -667,6 +667,40 @@ package prover
 //@   assert@return result1 == nil ==> origin(deref(result0).ProvingKey, "LoadProvingKey.0") && origin(deref(result0).VerifyingKey, "LoadVerifyingKey.0")
 //@   assert@before:LoadProvingKey arg0 == pkPath
 //@   assert@before:LoadVerifyingKey arg0 == vkPath
+//@   loop 1
+//@     invariant 0 <= i && i <= batchSize && len(proofs) == batchSize
+//@     invariant forall k :: 0 <= k && k < i ==> len(proofs[k]) == treeDepth
+
+// ---------------------------------------------------------------------------------------
+// C12 / C03 — struct-level facts and the extraction path
+// ---------------------------------------------------------------------------------------
+
+//@ typefact InsertionMbuCircuit
+//@   property C12 C03
+//@   public InputHash
+//@   first InputHash
+
+//@ typefact DeletionMbuCircuit
+//@   property C12 C03
+//@   public InputHash
+//@   first InputHash
+
+//@ typefact InsertionParametersJSON
+//@   property C16
+//@   fieldtype StartIndex uint32
+
+//@ typefact DeletionParametersJSON
+//@   property C16
+//@   fieldtype DeletionIndices []uint32
+
+//@ func ExtractLean
+//@   property C12
+//@   assert@before:ExtractCircuits deletion.Depth == treeDepth && deletion.BatchSize == batchSize && len(deletion.DeletionIndices) == batchSize &&
+//@              len(deletion.IdComms) == batchSize && len(deletion.MerkleProofs) == batchSize &&
+//@              (forall k :: 0 <= k && k < batchSize ==> len(deletion.MerkleProofs[k]) == treeDepth)
+//@   assert@before:ExtractCircuits insertion.Depth == treeDepth && insertion.BatchSize == batchSize &&
+//@              len(insertion.IdComms) == batchSize && len(insertion.MerkleProofs) == batchSize &&
+//@              (forall k :: 0 <= k && k < batchSize ==> len(insertion.MerkleProofs[k]) == treeDepth)
 //@   loop 1
 //@     invariant 0 <= i && i <= batchSize && len(proofs) == batchSize
 //@     invariant forall k :: 0 <= k && k < i ==> len(proofs[k]) == treeDepth
